@@ -523,7 +523,8 @@ pub fn check_tmpl(c: &TCase, obs: &mut Obs) -> R {
         return fail(format!("tmpl/{dn}/values"), format!("{}\n sql {:?}\n got values {:?}\n expected   {:?}", ctx("build"), got_sql, got_vals.0, exp_vals));
     }
     // the parameterised form goes back to the inline form — only when the built text has no literal lone mark
-    let literal_mark = p.segs.iter().any(|s| matches!(s, Seg::Doubled) || (d == Dialect::Postgres && matches!(s, Seg::MarkWord(_))));
+    // (`$name` on Postgres stays `$name` in the built text and is not a placeholder for inject_parameters either: it is kept)
+    let literal_mark = p.segs.iter().any(|s| matches!(s, Seg::Doubled));
     if !literal_mark {
         let inj = guard("inject_parameters", || with_backend!(d, b => inject_parameters(&got_sql, got_vals.0.clone(), &b)))?;
         if inj != want_inline {
